@@ -459,6 +459,21 @@ func TestVerifC14(t *testing.T) {
 			}{ages, l})
 		}
 	}
+	// late documents in EVERY fraction (each fraction then has its own occupancy map; the maps of neighbouring
+	// fractions are persisted side by side in .frac-cache), two and three fractions with interleaved times
+	for _, lt := range []struct {
+		ages   []int64
+		layout []int
+	}{
+		{[]int64{30 * 60_000, 20 * 60_000, 25 * 60_000, 12 * 60_000}, []int{0, 0, 1, 1}},
+		{[]int64{40 * 60_000, 30 * 60_000, 35 * 60_000, 25 * 60_000, 20 * 60_000, 12 * 60_000}, []int{0, 0, 1, 1, 2, 2}},
+		{[]int64{3 * 3600_000, 90 * 60_000, 2 * 3600_000, 11 * 60_000}, []int{0, 0, 1, 1}},
+	} {
+		layouts = append(layouts, struct {
+			ages   []int64
+			layout []int
+		}{lt.ages, lt.layout})
+	}
 	vlib.Parallel(len(layouts), 8, func(i int) {
 		if r.Expired() {
 			return
@@ -472,7 +487,7 @@ func TestVerifC14(t *testing.T) {
 	r.Sample(c14Case{Kind: "real", Ages: layouts[len(layouts)/2].ages, Layout: layouts[len(layouts)/2].layout, Form: "reloaded-frac-cache", Query: "*"})
 	ev := r.Get("evaluations")
 	r.Finish(t, "model_checking",
-		fmt.Sprintf("bitmask: all sizes<=%d, all l<=r, all masks for size<=%d and all masks with <=2 bits above; distribution: from in 4 offsets x 0..%d buckets x on/off-bucket end, added MIDs = subsets of size<=3 of a half-bucket grid over [from-2b,to+2b], all ordered query pairs, direct and after JSON round trip (soundness: a MID in range implies intersecting); Info borders; real fractions (scaled block constants: 4 IDs per block, so the 7- and 8-document fractions span 3 ID blocks): subsets (quick: sizes 1-3 and 7-8, thorough: all) of 8 age slots (25h, 24h+30s, 11min, 10min-1ms, 5min, 61s, 0, -60s) in one or two fractions (every third single-fraction layout again ingested as two bulks with a re-delivered document and the newest document not last), plus sparse-minute shapes (6 documents placed +-10 s around the bucket border offset of the oldest document, offsets 15/30/45 s, empty minutes in between), three forms (last fraction active / all sealed / reloaded via .frac-cache), queries * and k:a over all ordered pairs of a border grid (document MIDs +-1, occupancy bucket borders, creation time, 0, max) vs reference search over all documents", maxSize, fullMask, nb),
+		fmt.Sprintf("bitmask: all sizes<=%d, all l<=r, all masks for size<=%d and all masks with <=2 bits above; distribution: from in 4 offsets x 0..%d buckets x on/off-bucket end, added MIDs = subsets of size<=3 of a half-bucket grid over [from-2b,to+2b], all ordered query pairs, direct and after JSON round trip (soundness: a MID in range implies intersecting); Info borders; real fractions (scaled block constants: 4 IDs per block, so the 7- and 8-document fractions span 3 ID blocks): subsets (quick: sizes 1-3 and 7-8, thorough: all) of 8 age slots (25h, 24h+30s, 11min, 10min-1ms, 5min, 61s, 0, -60s) in one or two fractions (every third single-fraction layout again ingested as two bulks with a re-delivered document and the newest document not last), plus layouts of two and three fractions that ALL hold late documents (every fraction has an occupancy map; interleaved times), plus sparse-minute shapes (6 documents placed +-10 s around the bucket border offset of the oldest document, offsets 15/30/45 s, empty minutes in between), three forms (last fraction active / all sealed / reloaded via .frac-cache), queries * and k:a over all ordered pairs of a border grid (document MIDs +-1, occupancy bucket borders, creation time, 0, max) vs reference search over all documents", maxSize, fullMask, nb),
 		map[string]any{
 			"states":                        r.DistinctCount("nontrivial"),
 			"transitions":                   ev,
